@@ -305,17 +305,11 @@ func errClass(err error) string {
 
 // runOne executes one accepted call on a scratch copy of the snapshot.
 func (w *worker) runOne(s *snapshot, id *caseID, g *groupStats) *verdict {
-	t0 := time.Now()
 	c0 := cpuMs()
 	defer func() { w.r.Count("cpu_ms_states", cpuMs()-c0) }()
 	pr := s.open(w.c.TempDir(), w.c.TempDir())
-	t1 := time.Now()
 	v := execute(pr, s.Env, id)
-	t2 := time.Now()
 	pr.destroy()
-	w.r.Count("us_open", t1.Sub(t0).Microseconds())
-	w.r.Count("us_execute", t2.Sub(t1).Microseconds())
-	w.r.Count("us_destroy", time.Since(t2).Microseconds())
 	w.account(id, v, g)
 	return v
 }
@@ -383,9 +377,7 @@ func (w *worker) group(s *snapshot, filter *vnode.Node, mr methodRef, actorIdx i
 		}
 		return id
 	}
-	tf := time.Now()
 	cf := cpuMs()
-	defer func() { w.r.Count("ms_group_total", time.Since(tf).Milliseconds()) }()
 	for {
 		id := mk(t)
 		g.gen++
@@ -413,7 +405,6 @@ func (w *worker) group(s *snapshot, filter *vnode.Node, mr methodRef, actorIdx i
 			break
 		}
 	}
-	w.r.Count("ms_filter", time.Since(tf).Milliseconds())
 	w.r.Count("cpu_ms_filter", cpuMs()-cf)
 	count := func() int {
 		k := 0
@@ -557,10 +548,8 @@ func run(c *xs.Ctx, r *xs.Result) {
 	for _, b := range w.b.Bases {
 		need[b] = true
 	}
-	tb := time.Now()
 	cb := cpuMs()
 	w.buildBases(need)
-	r.Count("ms_bases", time.Since(tb).Milliseconds())
 	r.Count("cpu_ms_bases", cpuMs()-cb)
 	defer func() { r.Count("cpu_ms_total", cpuMs()) }()
 	runBases := w.b.Bases
@@ -863,11 +852,12 @@ func init() {
 		Run:    run,
 		Finish: finish,
 		Assumptions: []string{
-			"mock genesis; process globals owned by the check: FuseExpiration=6, UpdateMinNumMomentums=4, SporkMinHeightDelay=2, bridge/liquidity delays 2/1/1, MinGuardians=2, InitialBridgeAdministrator=User5 (as the repository's tests do); spork ids = ids of sporks created and activated on the worker's chain with the spork key",
+			"mock genesis; process globals owned by the check (as the repository's tests do): FuseExpiration=6, UpdateMinNumMomentums=4, SporkMinHeightDelay=2, bridge/liquidity delays 2/1/1, MinGuardians=2, InitialBridgeAdministrator=User5; time windows rescaled so that matured states are one 26-hour jump away: pillar and sentinel lock 20 h + revoke window 10 h, staking unit 2 h (reward epochs keep 24 h); spork ids = ids of sporks created and activated on the worker's chain with the spork key; sporks created by cases are registered as implemented so that the node does not terminate itself",
 			"regimes: origin, accelerator, accelerator+bridge, accelerator+htlc (historical order), all three; one regime per worker process",
 			"the producer path is driven at Supervisor level (GenerateAutoReceive for the inbox head, as pillar.worker.generateNext does) with the panic captured; the pillar's own task goroutine is not used because its re-panic would kill the process",
 			"send-time acceptance is decided by the real node (GenerateFromTemplate; for non-canonical encodings also chain-bridge AddAccountBlocks of a self-signed block); refused sends are outside the property",
-			"domains are cut from the end (values are ordered by relevance) when a (base, method, sender) group exceeds the candidate or accepted cap; what is cut is listed in the notes",
+			"bounds: quick = 2 values per argument x amounts {required, zero} x 2 tokens, senders relevant to the method, <=256 candidates and <=4 (all-sporks regime; <=2 elsewhere) executed accepted sends per (base, method, sender), encodings in the all-sporks regime; thorough = full domains x 4 amounts x 6 tokens, <=8192 candidates and <=48 (<=12 elsewhere) executed per group, encodings everywhere, depth-2 chains (applied A, then B, both from the quick product, <=2 per method and sender) in the origin and all-sporks regimes on the entries state; domains are cut from the end (values are ordered by relevance) when a group exceeds a cap; what is cut is listed in the notes",
+			"a base-state snapshot is reopened per case (copy of the leveldb directories); the follower is a second real node fed through ChainBridge.InsertChain",
 		},
 	})
 }
